@@ -36,10 +36,11 @@ INVARIANT ArraysAgree
 INVARIANT DerivedAgree
 INVARIANT RoundTrip
 INVARIANT InstancesWellFormed
+INVARIANT ZeroDiscountIsMyopic
 INVARIANT Terminates
 """
 DESIGN_INVS = ["ReachInv", "ReachFixpoint", "CutSemantics", "ListOk", "ArraysAgree", "DerivedAgree",
-               "RoundTrip", "InstancesWellFormed", "Terminates"]
+               "RoundTrip", "InstancesWellFormed", "ZeroDiscountIsMyopic", "Terminates"]
 INF = -1
 VI_EPS = 1e-10
 
@@ -87,11 +88,11 @@ def make_instance(rng, style):
     rewards = (-2, -1, 0, 1, 2)
     while True:
         if style == "plan":
-            GN, GD = rng.choice([(1, 2), (3, 4), (9, 10)])
+            GN, GD = rng.choice([(1, 2), (3, 4), (9, 10), (0, 1)])
             PD = rng.choice([2, 4])
             n_na, n_abs, K = rng.choice([1, 2, 2, 3]), rng.choice([0, 1, 1, 2]), rng.choice([1, 2, 2, 3])
         else:
-            GN, GD = rng.choice([(1, 2), (3, 4), (9, 10), (1, 1), (1, 1), (19, 20)])
+            GN, GD = rng.choice([(1, 2), (3, 4), (9, 10), (1, 1), (1, 1), (19, 20), (0, 1)])
             PD = rng.choice([2, 4, 4, 3])
             n_na, n_abs, K = rng.choice([1, 2, 3, 3, 4]), rng.choice([0, 1, 1, 2]), rng.choice([1, 2, 2, 3])
         if style in ("absinit", "ghost") and n_abs == 0:
@@ -407,6 +408,8 @@ def build(m, rep, kind, const=None):
     L = Labels(m, rep)
     nsd, reward, actions, isd, is_abs = functions(m, L, rep)
     g = float(F(m["GN"], m["GD"]))
+    if m["GN"] == 0 and rep["seed"] % 2 == 0:
+        g = 0                                 # discount 0 as an int and as a float (both falsy)
 
     def subclass():
         class _M(TabularMarkovDecisionProcess):
